@@ -45,18 +45,20 @@ direct-recompute chains, in order), and `TidyH.drainSteps env fuel t2` = the sam
 * (b') INPUTS BEFORE OUTPUTS — `stabilise_order`, `history_order` — `OnceF.OrderStab env fuel s s'`: in the list of steps of the drain (`drainSteps env fuel t2`, same `t2`),
   whenever a step `p` comes before a step `q` (`List.Pairwise`), the node of `q` is NOT A STABLE CHILD of the node of `p`: `OnceF.SKid p.2 p.1 c` = `c ∈ p.2.children p.1` (the child
   list in the state in which `p.1` was handed to `recomputeOne`), except the CURRENT RHS of a bind's main node (kept: every argument of a map / fold, the input of a map_ref /
-  map_with_old node, the lhs of a change detector, the change detector of a main node).  So no input of a node is recomputed after the node in the same `stabilise`.
+  map_with_old node, the lhs of a change detector, the change detector of a main node).  So no such input of a node is recomputed after the node in the same `stabilise`.
 * (b'') FINAL INPUTS, VALUE FORM — `stabilise_inputs`, `history_inputs` — `OnceF.InputsStab env fuel s s'`: for every step `p` of the drain (node `p.1` handed to `recomputeOne` in state
   `p.2`) and every stable child `c` of `p.1` in `p.2`: `c` is an existing node of `p.2`, and THE VALUE `c` STORES IN THE FINAL STATE `s'` IS THE VALUE IT STORED WHEN `p.1` RAN
   (`(s'.nodeD c).value = (p.2.nodeD c).value`), unless it stores nothing at the end (`(s'.nodeD c).value = none`: `invalidate_node` erased it because `c` was invalidated later in
   this drain — or it stored nothing when `p.1` ran either: a map_ref node never stores a value).  For a
   child that is not a map_ref node the stored value is what `recomputeOne` reads (`valueUnwrap` = `State.value` = the `value` field of a valid non-map_ref node), so: the arguments
-  a node's function received are the values its inputs hold at the end of the `stabilise`.
+  a node's function received from its stable, non-map_ref inputs are the values these inputs hold at the end of the `stabilise` (if they still hold one).  `recomputeOne_value_frame`: the
+  frame behind it, for every kind of node and every outcome of the call.
 * NON-VACUITY (kernel-checked): the theorem applies at each of the seven `stabilise`s of `C01Full`'s example history `exHistF` (bind whose closure builds a map_ref chain, two
   `map_with_old` machines, a nested bind) and at each of the five of `exHistG` (`depend_on`, `cutoff never`); the drain traces of these twelve `stabilise`s are computed by the
   kernel (`exHistF_traces`, `exHistG_traces`): e.g. the first round of `exHistF` runs 14 distinct nodes, the round after writing only the third component of the pair variable runs
   `[0, 5, 12, 13, 10, 11, 4]` (the map_ref node 5 runs, its projection is unchanged and its parents 6, 7 do NOT run), the round in which the lhs flips runs `[1, 3, 14, 4]`
-  (no node of the dying generation 5…13).
+  (no node of the dying generation 5…13).  (b') and (b'') apply at the same twelve `stabilise`s (`exHistF_order`, `exHistF_inputs`, …); the child lists of the first generation of
+  `exHistF` are kernel-checked (`exHistF_children`), so `SKid` is not vacuous there.
 
 ## METHOD (`Proofs/OnceF1…16`, 1.45 kLoC)
 `Sched.drain_once`/`BindH.drain_onceB` redone over `FullH.DInvF` (`OnceF2`: the ghost of the invariant changes from step to step, so invariant, frame and trace facts are
